@@ -419,8 +419,12 @@ class FuncAlias:
                 for te, v in zip(t.elts, val.elts):
                     self._assign(n, te, v, vexpr, st, put, False)
             else:
-                for te in t.elts:
-                    self._assign(n, te, flat(val), vexpr, st, put, False)
+                fv = flat(val)
+                for i, te in enumerate(t.elts):
+                    # a call returning a tuple of new objects: one object per element
+                    ev = frozenset((o + (i,)) if o[0] == "fresh" and isinstance(vexpr, ast.Call)
+                                   and o[1:3] == (vexpr.lineno, vexpr.col_offset) else o for o in fv)
+                    self._assign(n, te, ev, vexpr, st, put, False)
             return
         if isinstance(t, ast.Starred):
             self._assign(n, t.value, flat(val), vexpr, st, put, False)
